@@ -41,9 +41,9 @@ func init() {
 }
 
 type node struct {
-	kind string // lit alt cat star plus quest dotstar dotplus dotquest dot class cap icase repeat begin end empty
-	s    string
-	kids []*node
+	kind     string // lit alt cat star plus quest dotstar dotplus dotquest dot class cap icase repeat begin end empty
+	s        string
+	kids     []*node
 	min, max int
 }
 
@@ -305,10 +305,80 @@ func mutate(r *rand.Rand, s string) string {
 	return string(rs)
 }
 
+// overlapping literals: an occurrence can overlap another one, so a matcher that scans for the
+// literal must resume one character after a rejected occurrence, not after its end
+var overlapLits = []string{"aa", "aaa", "abab", "aba", "-a-", "xyxy", "日日", "00", "a.a.", "AbAb"}
+
+// genContains builds <wild> literal(s) <wild> patterns around self-overlapping literals.
+func genContains(r *rand.Rand) *node {
+	wild := func() *node {
+		switch r.IntN(6) {
+		case 0:
+			return &node{kind: "dotstar"}
+		case 1, 2:
+			return &node{kind: "dotplus"}
+		case 3:
+			return &node{kind: "dotquest"}
+		case 4:
+			return &node{kind: "dot"}
+		default:
+			return &node{kind: "empty"}
+		}
+	}
+	lit := func() *node {
+		if r.IntN(3) == 0 {
+			k := &node{kind: "alt"}
+			for i := 0; i < 2+r.IntN(2); i++ {
+				k.kids = append(k.kids, &node{kind: "lit", s: overlapLits[r.IntN(len(overlapLits))]})
+			}
+			return k
+		}
+		return &node{kind: "lit", s: overlapLits[r.IntN(len(overlapLits))]}
+	}
+	n := &node{kind: "cat", kids: []*node{wild(), lit(), wild()}}
+	if r.IntN(3) == 0 {
+		n.kids = append(n.kids, lit(), wild())
+	}
+	if r.IntN(4) == 0 {
+		n = &node{kind: "cat", kids: []*node{{kind: "cap", kids: []*node{n.kids[0]}}, n.kids[1], {kind: "cap", kids: []*node{n.kids[2]}}}}
+	}
+	if r.IntN(5) == 0 {
+		n = &node{kind: "icase", kids: []*node{n}}
+	}
+	return n
+}
+
+// overlapStrings returns strings in which the literals occur overlapping themselves.
+func overlapStrings(r *rand.Rand) []string {
+	var out []string
+	for i := 0; i < 10; i++ {
+		l := overlapLits[r.IntN(len(overlapLits))]
+		rs := []rune(l)
+		period := rs[:(len(rs)+1)/2]
+		var sb strings.Builder
+		if r.IntN(2) == 0 {
+			sb.WriteString([]string{"", "z", "a", "\n"}[r.IntN(4)])
+		}
+		for k := 0; k < 2+r.IntN(4); k++ {
+			sb.WriteString(string(period))
+		}
+		sb.WriteString(string(rs[:r.IntN(len(rs)+1)]))
+		if r.IntN(2) == 0 {
+			sb.WriteString([]string{"", "z", "a", "\n"}[r.IntN(4)])
+		}
+		out = append(out, sb.String())
+	}
+	return out
+}
+
 func run(c *core.Case) {
 	r := c.Rng
 	depth := 1 + r.IntN(4)
 	ast := gen(r, depth)
+	contains := r.IntN(6) == 0
+	if contains {
+		ast = genContains(r)
+	}
 	pat := ast.String()
 	// occasionally use the raw top-level alternation syntax (a|b|c without group): this is
 	// what optimizeAlternatingLiterals keys on.
@@ -337,6 +407,10 @@ func run(c *core.Case) {
 		nstr = 60
 	}
 	strs := []string{"", "\n"}
+	if contains {
+		strs = append(strs, overlapStrings(r)...)
+		nstr += 10
+	}
 	for len(strs) < nstr {
 		s := ast.sample(r, r.IntN(4) == 0)
 		strs = append(strs, s)
